@@ -803,6 +803,162 @@ def gen_known(o, repo):
     o.add("lookup_parse_format", lookup_parse)
 
 
+# ---------------------------------------------------------------------------------------------------
+# The header's own bookkeeping between two files: what a header that was read from one file (or built for another point format)
+# still carries when it is handed to a writer.
+#   Definition partial_reset_evlrs (start_of_first_evlr number_of_evlrs : Z) : Z * Z        LasHeader.partial_reset on the two EVLR fields
+#   Definition writer_init_resets : bool                                                     LasWriter.__init__: its own copy of the header, partial_reset()
+#   Definition write_evlrs_fields (minor n_evlrs pos start_of_first_evlr number_of_evlrs : Z) : option (Z * Z)
+#                                                                                            LasWriter.write_evlrs (None = refused)
+#   Definition point_format_writers : list (string * bool)
+#       every method of LasHeader that binds self._point_format or adds / removes extra dimensions of the header's point format, with:
+#       "self._sync_extra_bytes_vlr() is called on the method's top level after the last such statement" (the Extra Bytes VLR is
+#       rebuilt from the dimensions the point format has then)
+# Fail closed: another shape of these functions is Untranslatable.
+# ---------------------------------------------------------------------------------------------------
+_EVLR_FIELDS = ("start_of_first_evlr", "number_of_evlrs")
+
+
+def _is_doc(s):
+    return isinstance(s, ast.Pass) or (isinstance(s, ast.Expr) and isinstance(s.value, ast.Constant))
+
+
+def _mentions_evlr_fields(s):
+    return any(isinstance(n, ast.Attribute) and n.attr in _EVLR_FIELDS for n in ast.walk(s))
+
+
+def gen_header_state(o, repo):
+    def partial_reset():
+        fn = py2v.find_func(py2v.find_class(py2v.parse(repo, "laspy/header.py"), "LasHeader"), "partial_reset")
+        st = {"start_of_first_evlr": "start_of_first_evlr", "number_of_evlrs": "number_of_evlrs"}
+        for s in fn.body:
+            if _is_doc(s) or not _mentions_evlr_fields(s):
+                if isinstance(s, (ast.Return, ast.Raise)):
+                    raise Untranslatable("partial_reset leaves early")
+                continue
+            if (isinstance(s, ast.Assign) and len(s.targets) == 1 and isinstance(s.targets[0], ast.Attribute)
+                    and ast.unparse(s.targets[0].value) == "self" and s.targets[0].attr in _EVLR_FIELDS
+                    and isinstance(s.value, ast.Constant) and isinstance(s.value.value, int) and not isinstance(s.value.value, bool)):
+                st[s.targets[0].attr] = py2v.z(s.value.value)
+                continue
+            raise Untranslatable(f"partial_reset: {ast.unparse(s)[:80]}")
+        return ("(* laspy/header.py LasHeader.partial_reset: the EVLR fields of the header afterwards *)\n"
+                "Definition partial_reset_evlrs (start_of_first_evlr number_of_evlrs : Z) : Z * Z :=\n"
+                f"  ({st['start_of_first_evlr']}, {st['number_of_evlrs']}).\n")
+    o.add("partial_reset_evlrs", partial_reset)
+
+    def writer_init():
+        fn = py2v.find_func(py2v.find_class(py2v.parse(repo, "laspy/laswriter.py"), "LasWriter"), "__init__")
+        body = [s for s in fn.body if not _is_doc(s)]
+        texts = [ast.unparse(s) for s in body]
+        own = [i for i, t in enumerate(texts) if t in ("self.header = deepcopy(header)", "self.header = copy.deepcopy(header)")]
+        rst = [i for i, t in enumerate(texts) if t == "self.header.partial_reset()"]
+        if len(own) != 1 or len(rst) != 1 or rst[0] < own[0]:
+            raise Untranslatable("LasWriter.__init__ does not take its own copy of the header and partial_reset() it once")
+        for i, s in enumerate(body):
+            if _mentions_evlr_fields(s) or (i > own[0] and any(isinstance(n, ast.Assign) and any(ast.unparse(t_) == "self.header" for t_ in n.targets)
+                                                                for n in ast.walk(s))):
+                raise Untranslatable(f"LasWriter.__init__: {texts[i][:80]}")
+        return ("(* laspy/laswriter.py LasWriter.__init__: self.header = deepcopy(header), then self.header.partial_reset() *)\n"
+                "Definition writer_init_resets : bool := true.\n")
+    o.add("writer_init_resets", writer_init)
+
+    def write_evlrs():
+        fn = py2v.find_func(py2v.find_class(py2v.parse(repo, "laspy/laswriter.py"), "LasWriter"), "write_evlrs")
+        if [a.arg for a in fn.args.args] != ["self", "evlrs"]:
+            raise Untranslatable("write_evlrs parameters")
+        CMP = _Resolve.CMP
+
+        def zexpr(e, wrote):
+            if isinstance(e, ast.Constant) and isinstance(e.value, int) and not isinstance(e.value, bool):
+                return py2v.z(e.value)
+            t = ast.unparse(e)
+            if t == "self.header.version.minor":
+                return "minor"
+            if t == "len(evlrs)":
+                return "n_evlrs"
+            if t == "self.dest.tell()":
+                if wrote:
+                    raise Untranslatable("the stream position is taken after the EVLRs were written")
+                return "pos"
+            raise Untranslatable(f"integer expression {t[:60]}")
+
+        def test(e, wrote):
+            if isinstance(e, ast.Compare) and len(e.ops) == 1 and type(e.ops[0]) in CMP:
+                return CMP[type(e.ops[0])].format(a=zexpr(e.left, wrote), b=zexpr(e.comparators[0], wrote))
+            if ast.unparse(e) == "evlrs":
+                return "(0 <? n_evlrs)"
+            raise Untranslatable(f"condition {ast.unparse(e)[:60]}")
+
+        def run(stmts, st, wrote):
+            if not stmts:
+                return f"Some ({st['start_of_first_evlr']}, {st['number_of_evlrs']})"
+            s, rest = stmts[0], stmts[1:]
+            if _is_doc(s):
+                return run(rest, st, wrote)
+            if isinstance(s, ast.Raise):
+                return "None"
+            if isinstance(s, ast.Return) and s.value is None:
+                return run([], st, wrote)
+            if isinstance(s, ast.If):
+                t = test(s.test, wrote)
+                return f"(if {t} then {run(list(s.body) + rest, dict(st), wrote)} else {run(list(s.orelse) + rest, dict(st), wrote)})"
+            if (isinstance(s, ast.Assign) and len(s.targets) == 1 and isinstance(s.targets[0], ast.Attribute)
+                    and ast.unparse(s.targets[0].value) == "self.header" and s.targets[0].attr in _EVLR_FIELDS):
+                st = dict(st)
+                st[s.targets[0].attr] = zexpr(s.value, wrote)
+                return run(rest, st, wrote)
+            if _mentions_evlr_fields(s) or isinstance(s, (ast.For, ast.While, ast.Try, ast.With, ast.Return)):
+                raise Untranslatable(f"write_evlrs: {ast.unparse(s)[:80]}")
+            text = ast.unparse(s)
+            return run(rest, st, wrote or "write_to(" in text or ".write(" in text or ".seek(" in text)
+
+        text = run(list(fn.body), {"start_of_first_evlr": "start_of_first_evlr", "number_of_evlrs": "number_of_evlrs"}, False)
+        return ("(* laspy/laswriter.py LasWriter.write_evlrs: the EVLR fields of the writer's header afterwards (pos = position of the\n"
+                "   stream when it is asked, before the records are written); None = the call is refused *)\n"
+                "Definition write_evlrs_fields (minor n_evlrs pos start_of_first_evlr number_of_evlrs : Z) : option (Z * Z) :=\n  "
+                + text + ".\n")
+    o.add("write_evlrs_fields", write_evlrs)
+
+    def pf_writers():
+        cls = py2v.find_class(py2v.parse(repo, "laspy/header.py"), "LasHeader")
+
+        def changes(n):
+            if isinstance(n, (ast.Assign, ast.AnnAssign, ast.AugAssign)):
+                tg = n.targets if isinstance(n, ast.Assign) else [n.target]
+                if any(ast.unparse(t_) == "self._point_format" for t_ in tg):
+                    return True
+            if isinstance(n, ast.Call) and ast.unparse(n.func) in (
+                    "self.point_format.add_extra_dimension", "self.point_format.remove_extra_dimension",
+                    "self._point_format.add_extra_dimension", "self._point_format.remove_extra_dimension",
+                    "self.point_format.dimensions.append", "self._point_format.dimensions.append"):
+                return True
+            if isinstance(n, ast.Call) and ast.unparse(n.func) in ("setattr", "object.__setattr__") and "_point_format" in ast.unparse(n):
+                return True
+            return False
+
+        rows = []
+        for fn in cls.body:
+            if not isinstance(fn, ast.FunctionDef) or fn.name == "_sync_extra_bytes_vlr":
+                continue
+            last = None
+            for i, s in enumerate(fn.body):
+                if any(changes(n) for n in ast.walk(s)):
+                    last = i
+            if last is None:
+                continue
+            synced = any(isinstance(s, ast.Expr) and ast.unparse(s) == "self._sync_extra_bytes_vlr()" for s in fn.body[last + 1:])
+            name = fn.name + (".setter" if any(ast.unparse(d).endswith(".setter") for d in fn.decorator_list) else "")
+            rows.append((name, synced))
+        if not rows:
+            raise Untranslatable("no method of LasHeader binds its point format")
+        return ("(* laspy/header.py LasHeader: the methods that bind self._point_format or add / remove extra dimensions of the header's\n"
+                "   point format; true = self._sync_extra_bytes_vlr() follows on the method's top level *)\n"
+                "Definition point_format_writers : list (string * bool) :=\n  ["
+                + "; ".join(f"({qs(n)}, {'true' if b else 'false'})" for n, b in rows) + "].\n")
+    o.add("point_format_writers", pf_writers)
+
+
 _gen0 = gen
 
 
@@ -812,6 +968,7 @@ def gen(repo):  # noqa: F811
     gen_append(o, repo)
     gen_handover(o, repo)
     gen_known(o, repo)
+    gen_header_state(o, repo)
     return o
 
 
